@@ -1,22 +1,33 @@
 (* C07 -- every ingestion path delivers the same messages for the same lines.
-   Statements only; proofs in Proofs/AssembleProofs.v.
+   Statements only; proofs in Proofs/AssembleProofs.v (the loops, the line sources), Proofs/IngestSocket.v (the socket
+   front-end, line terminators, the two loops and the wrappers at reader level) and Proofs/IngestProofs.v (decode() against
+   the readers).
 
-   Proved here (C07_partial = their conjunction):
+   Part 1 (loop level, C07_partial = their conjunction; kept as a corollary of C07):
      - the two copies of the reassembly loop compute the same thing (C07_queue_step_eq and its run forms);
      - IterMessages, ByteStream, BinaryIOStream / FileReaderStream hand the same line list to that loop
        (C07_frontends_agree);
      - assemble_from_iterable, which decode() shares with the readers, yields the same raw/payload/bits/validity/message id
        for every arrival order of the parts (C07_assemble_perm).
-   Composed elsewhere, not in this file:
-     - "decode() of a message's parts agrees with decoding the sentence the readers deliver" needs Model/DecodeApi.v
-       (decode.py _assemble_messages + AISSentence.decode); with it the clause follows from C03 + C07_assemble_perm.
-       Until then this clause is checked on the implementation by the harness oracle (tools/props/stream_common.py
-       oracle_decode) on every run.
-     - SocketStream feeds the same lines by C06 (Model/Socket.v); NMEASentenceFactory.produce strips the line terminator
-       (Model/Nmea.v), which makes `l` and `terminated l` parse alike. *)
+   Part 2 (the composition over LINES: Model/Nmea.v produce -> Model/Tbq.v -> Model/Assemble.v, as composed in
+   Model/Reader.v; Model/Socket.v; Model/DecodeApi.v):
+     - C07_readers_loops_equal: NMEAQueue.put_line = the generator of AssembleMessages on EVERY line sequence;
+     - C07_socket_filter / C07_socket_lines / C07_socket: SocketStream feeds and delivers the same as the byte stream and file
+       readers for every segmentation of a stream of terminated lines;
+     - C07_terminators / C07_raw: line terminators change nothing, raw text included; which raw text is delivered;
+     - C07_six_frontends / C07_six_frontends_bare: all six front-ends deliver the same sentence records at the same lines;
+     - C07_wrappers: the wrapper every delivered sentence carries (C18 at reader level), both loops;
+     - C07_decode_agrees: decode( *parts ) in any order agrees with .decode() of the one sentence either reader delivers
+       for the message, wherever its lines arrive between other lines (arbitrary lines outside the message's slot);
+     - C07_decode_agrees_schedule: the same for every complete message of every line sequence that parses to a C03
+       well-formed schedule (slots reused: other messages of the same slot before and after);
+     - C07_decode_by_content: every delivery of every line sequence decodes by its own payload and bits.
+   C07 = the conjunction (C07_statement); C07_partial = its first four clauses (C07_implies_partial). *)
 From Coq Require Import ZArith List Bool Permutation.
 Require Import Prim.Exn Prim.Bits Prim.PyList Model.Sentence Model.AssembleIter Model.Assemble Spec.AssembleSpec
                Proofs.AssembleProofs.
+Require Import Model.Nmea Model.Tbq Model.Reader Model.Socket Model.DecodeApi Spec.SocketSpec Proofs.ReaderIsolation
+               Proofs.IngestSocket Proofs.IngestProofs.
 Import ListNotations.
 Open Scope Z_scope.
 
@@ -93,4 +104,381 @@ Proof.
   split; [repeat constructor; vm_compute; reflexivity|].
   split; [repeat constructor; vm_compute; intuition discriminate|].
   repeat split; vm_compute; reflexivity.
+Qed.
+
+(* ================================================================================================================== *)
+(* Part 2: the composition over lines                                                                                  *)
+
+(* NMEAQueue.put_line and the generator of AssembleMessages: same deliveries (AIS sentences and tag block groups), same
+   final state, for every sequence of byte lines, from every state, with and without a tag block queue.  (produce and
+   TagBlockQueue.put_sentence never raise IndexError, the one exception the loops treat differently.) *)
+Theorem C07_readers_loops_equal : forall uni use_tbq lines st,
+  rd_run uni queue_step use_tbq st lines = rd_run uni stream_step use_tbq st lines.
+Proof. exact rd_loops_equal. Qed.
+Print Assumptions C07_readers_loops_equal.
+
+(* the line filter of Stream._iter_messages, transcribed in Model/Socket.v and in Model/Assemble.v: one predicate *)
+Theorem C07_socket_filter : forall l, sock_line_filter l = negb (pyl_len l <=? 10) && should_parse l.
+Proof. exact sock_filter_is_stream_filter. Qed.
+Print Assumptions C07_socket_filter.
+
+(* a byte stream made of terminated lines, every segmentation into non-empty receive chunks: the socket reader hands its
+   loop the same lines as BinaryIOStream / FileReaderStream (the stream as file content) and ByteStream (the lines) *)
+Theorem C07_socket_lines : forall ls cs, lines_ok ls -> chunking cs (concat ls) ->
+  sock_iter_messages cs = stream_source ls /\
+  binaryio_source (concat ls) = stream_source ls /\
+  bytestream_source ls = stream_source ls.
+Proof. exact socket_frontend. Qed.
+Print Assumptions C07_socket_lines.
+
+(* ... hence delivers the same, either loop, with or without a tag block queue *)
+Theorem C07_socket : forall uni step use_tbq ls cs, lines_ok ls -> chunking cs (concat ls) ->
+  rd_run uni step use_tbq rd_init (sock_iter_messages cs) = rd_run uni step use_tbq rd_init (stream_source ls) /\
+  rd_run uni step use_tbq rd_init (binaryio_source (concat ls)) = rd_run uni step use_tbq rd_init (stream_source ls) /\
+  rd_run uni step use_tbq rd_init (bytestream_source ls) = rd_run uni step use_tbq rd_init (stream_source ls).
+Proof. exact socket_reader_deliveries. Qed.
+Print Assumptions C07_socket.
+
+(* lines with their LF / CR LF terminator and the bare lines: same deliveries (whole records, raw text included) at the
+   same lines, same final state *)
+Theorem C07_terminators : forall uni step use_tbq ls ls0, Forall2 unterminated ls ls0 ->
+  rd_run uni step use_tbq rd_init ls = rd_run uni step use_tbq rd_init ls0.
+Proof. exact terminators_irrelevant. Qed.
+Print Assumptions C07_terminators.
+
+(* which raw text: whatever a line parses to has raw = the line without surrounding white space and without its tag block
+   (line_sentence_text); for a terminated line  c ++ LF | c ++ CR LF  whose content c starts with '!' or '$' and has no
+   surrounding white space that is c itself.  (The raw text of an assembled message is the LF-join of its fragments' raw
+   texts in fragment order: msg_view in C07_decode_agrees.) *)
+Theorem C07_raw :
+  (forall l s, produce l = Ok s -> c_raw (sentence_common s) = line_sentence_text l) /\
+  (forall l c, unterminated l c -> produce l = produce c /\ line_sentence_text l = line_sentence_text c) /\
+  (forall l x r s, unterminated l (x :: r) -> Prim.PyBytes.strip (x :: r) = x :: r -> x <> 92 ->
+     produce l = Ok s -> c_raw (sentence_common s) = x :: r).
+Proof.
+  exact (conj produce_raw
+        (conj (fun l c H => conj (produce_unterminated l c H) (sentence_text_unterminated l c H)) terminated_line_raw)).
+Qed.
+Print Assumptions C07_raw.
+
+(* The six front-ends (fe_* : Proofs/IngestSocket.v; what each delivers per consumed line and its final state) on lines
+   as the property builds them -- longer than 10 bytes, first byte '!', '$' or backslash, terminated by LF or CR LF --,
+   the file readers on the concatenated stream, the socket reader on any segmentation of it: identical results, i.e. the
+   same sequence of sentence records (raw text, payload, bits, validity flag, attached wrapper, tag block, ...) and the
+   same tag block groups at the same lines. *)
+Theorem C07_six_frontends : forall uni use_tbq ls cs, lines_ok ls -> Forall passes_filter ls -> chunking cs (concat ls) ->
+  fe_bytestream uni use_tbq ls = fe_iter uni use_tbq ls /\
+  fe_binaryio uni use_tbq (concat ls) = fe_iter uni use_tbq ls /\
+  fe_file uni use_tbq (concat ls) = fe_iter uni use_tbq ls /\
+  fe_socket uni use_tbq cs = fe_iter uni use_tbq ls /\
+  fe_queue uni use_tbq ls = fe_iter uni use_tbq ls.
+Proof. exact six_frontends_agree. Qed.
+Print Assumptions C07_six_frontends.
+
+(* the in-memory iterator and the queue given the bare lines ls0 (what a caller typically passes), the others the
+   terminated ones *)
+Theorem C07_six_frontends_bare : forall uni use_tbq ls ls0 cs,
+  lines_ok ls -> Forall passes_filter ls -> chunking cs (concat ls) -> Forall2 unterminated ls ls0 ->
+  fe_iter uni use_tbq ls0 = fe_iter uni use_tbq ls /\ fe_queue uni use_tbq ls0 = fe_iter uni use_tbq ls /\
+  fe_socket uni use_tbq cs = fe_iter uni use_tbq ls0.
+Proof. exact six_frontends_agree_bare. Qed.
+Print Assumptions C07_six_frontends_bare.
+
+(* the wrapper carried by every delivered sentence is the one the C18 specification prescribes, for every line sequence,
+   in the stream readers and (second conjunct) identically in the queue *)
+Theorem C07_wrappers : forall uni use_tbq lines,
+  let ins := rd_inputs uni use_tbq [] lines in
+  let outs := map fst (fst (rd_run uni stream_step use_tbq rd_init lines)) in
+  map (map a_wrapper) outs = spec_wrapper (asm_events ins (map has_delivery outs)) /\
+  map fst (fst (rd_run uni queue_step use_tbq rd_init lines)) = outs.
+Proof. exact rd_wrappers_correct. Qed.
+Print Assumptions C07_wrappers.
+
+(* decode() against the readers.  line_ais l a: produce l = Ok (SAis a).  complete_message sq ch fs: common sequence id
+   and channel, fragment count = |fs| >= 1, fragment numbers a permutation of 1..|fs|.  msg_single: one fragment and no
+   (or zero) sequence id.  line_touches s l: l parses to a fragment that is stored into slot s.  tbq_accepts: the tag
+   block queue does not reject the sentence (no tag block, or tb.init() succeeds).  pick mask outs: the sentences
+   delivered at the selected lines.  view: (raw, payload, bits, validity flag, message id).  msg_view fs: raw texts joined by
+   LF, payloads / bits concatenated, validity conjoined, in fragment-number order; message id = first six bits.
+   (1) ls is ANY line sequence whose lines that store into the message's slot are exactly the parts, in any order
+       (between them: anything else -- other slots, singles, wrappers, foreign and malformed lines).  The reader consumes
+       every line, delivers exactly one sentence d at the message's lines, d carries the message, and for every order parts'
+       decode( *parts' ) assembles a sentence with the same view and returns exactly what d.decode() returns.
+   (2) the same for a single-sentence message at any position of any line sequence. *)
+Theorem C07_decode_agrees : forall uni step use_tbq, step = stream_step \/ step = queue_step ->
+  (forall parts fs sq ch ls,
+     Forall2 line_ais parts fs -> complete_message sq ch fs -> msg_single sq fs = false ->
+     (use_tbq = true -> Forall (tbq_accepts uni) fs) ->
+     Permutation parts (filter (line_touches (msg_slot sq ch)) ls) ->
+     exists outs st d,
+       rd_run uni step use_tbq rd_init ls = (outs, Ok st) /\ length outs = length ls /\
+       pick (map (line_touches (msg_slot sq ch)) ls) (map fst outs) = [d] /\
+       view d = msg_view fs /\ a_seq_id d = sq /\ a_channel d = ch /\
+       forall parts', Permutation parts parts' ->
+         exists nmea, assemble_messages false parts' = Ok nmea /\ view nmea = view d /\
+                      sentence_decode d = mmap snd (decode_api false parts')) /\
+  (forall p f pre post,
+     line_ais p f -> is_single f = true -> (use_tbq = true -> tbq_accepts uni f) ->
+     exists outs1 outs2 st touts d,
+       rd_run uni step use_tbq rd_init (pre ++ p :: post) = (outs1 ++ ([d], touts) :: outs2, Ok st) /\
+       length outs1 = length pre /\ length outs2 = length post /\
+       view d = view f /\ a_seq_id d = a_seq_id f /\ a_channel d = a_channel f /\
+       exists nmea, assemble_messages false [p] = Ok nmea /\ view nmea = view d /\
+                    sentence_decode d = mmap snd (decode_api false [p])).
+Proof. exact decode_agrees. Qed.
+Print Assumptions C07_decode_agrees.
+
+(* The same agreement by content, for arbitrary traffic (including other messages before and after in the same slot):
+   (a) whatever either reader delivers from ANY line sequence decodes to decode_content of its own payload and bits;
+   (b) decode( *parts ) of the lines of a complete message, in any order, is decode_content of the payloads and bits
+       concatenated in fragment-number order;
+   (c) for lines that parse to a C03 well-formed schedule the reader delivers what the C03 specification prescribes
+       (payload / bits of each delivery = those concatenations) and each delivery decodes by that content. *)
+Theorem C07_decode_by_content : forall uni step use_tbq, step = stream_step \/ step = queue_step ->
+  (forall lines st o d, In o (fst (rd_run uni step use_tbq st lines)) -> In d (fst o) ->
+     sentence_decode d = decode_content (a_payload d) (a_bits d)) /\
+  (forall parts fs sq ch, Forall2 line_ais parts fs -> complete_message sq ch fs ->
+     mmap snd (decode_api false parts) =
+     decode_content (flat_map a_payload (sort_by_frag fs)) (flat_map a_bits (sort_by_frag fs))) /\
+  (forall ls sch, WF sch -> rd_inputs uni use_tbq [] ls = schedule_lines sch ->
+     exists outs st,
+       rd_run uni step use_tbq rd_init ls = (outs, Ok st) /\
+       map (map delivery_of) (map fst outs) = spec_deliveries sch /\
+       Forall (Forall (fun d => sentence_decode d = decode_content (a_payload d) (a_bits d))) (map fst outs)).
+Proof.
+  exact (fun uni step use_tbq H =>
+    conj (delivered_decode_content uni step use_tbq (reader_loop_is_reader_loop step H))
+   (conj decode_api_content
+         (fun ls sch => wf_schedule_decode uni step use_tbq ls sch (reader_loop_is_reader_loop step H)))).
+Qed.
+Print Assumptions C07_decode_by_content.
+
+(* (3) The general form: ls parses, line by line (line_item), to ANY C03 well-formed schedule sch -- any number of
+   messages, any interleaving and per-message arrival order, slots reused after completion (other messages of the same slot
+   before and after), incomplete sets, single-sentence messages, wrappers, skipped lines --, m is a message of sch whose
+   fragments are those the lines `parts` parse to, complete.  Either reader delivers exactly one sentence d at the lines of m
+   (item_of_msg m), d carries the message, and decode( *parts' ) agrees with d.decode() for every order parts' of the parts. *)
+Theorem C07_decode_agrees_schedule : forall uni step use_tbq, step = stream_step \/ step = queue_step ->
+  forall ls sch m parts fs sq ch,
+    WF sch -> Forall2 (line_item uni use_tbq) ls sch ->
+    Forall2 line_ais parts fs -> complete_message sq ch fs ->
+    Permutation fs (map sf_sent (frags_of m (asm_frags sch))) ->
+    exists outs st d,
+      rd_run uni step use_tbq rd_init ls = (outs, Ok st) /\ length outs = length ls /\
+      pick (map (item_of_msg m) sch) (map fst outs) = [d] /\
+      view d = msg_view fs /\ a_seq_id d = sq /\ a_channel d = ch /\
+      forall parts', Permutation parts parts' ->
+        exists nmea, assemble_messages false parts' = Ok nmea /\ view nmea = view d /\
+                     sentence_decode d = mmap snd (decode_api false parts').
+Proof. exact decode_agrees_schedule. Qed.
+Print Assumptions C07_decode_agrees_schedule.
+
+(* ---------------------------------------------------------------- the property *)
+
+Definition C07_statement : Prop :=
+  (* the two loops, the line sources and assemble_from_iterable (the four clauses of C07_partial) *)
+  (forall st p t, queue_step st p t = if try_index_error p t then Ok (st, []) else stream_step st p t) /\
+  (forall ins st outs fin, asm_run stream_step st ins = (outs, Ok fin) -> asm_run queue_step st ins = (outs, Ok fin)) /\
+  (forall ls, Forall passes_filter ls -> Forall (fun l => ~ In 10 l) ls ->
+     let lines := map terminated ls in
+     iter_source lines = lines /\ bytestream_source lines = lines /\ binaryio_source (concat lines) = lines /\
+     iter_source ls = ls /\ bytestream_source ls = ls) /\
+  (forall l l', Permutation l l' -> NoDup (map a_frag_num l) ->
+     assembled_view (assemble_from_iterable l) = assembled_view (assemble_from_iterable l')) /\
+  (* the two loops on byte lines *)
+  (forall uni use_tbq lines st, rd_run uni queue_step use_tbq st lines = rd_run uni stream_step use_tbq st lines) /\
+  (* the six front-ends, wrappers and tag blocks included (equality of the whole delivery records) *)
+  (forall uni use_tbq ls cs, lines_ok ls -> Forall passes_filter ls -> chunking cs (concat ls) ->
+     fe_bytestream uni use_tbq ls = fe_iter uni use_tbq ls /\
+     fe_binaryio uni use_tbq (concat ls) = fe_iter uni use_tbq ls /\
+     fe_file uni use_tbq (concat ls) = fe_iter uni use_tbq ls /\
+     fe_socket uni use_tbq cs = fe_iter uni use_tbq ls /\
+     fe_queue uni use_tbq ls = fe_iter uni use_tbq ls) /\
+  (forall uni step use_tbq ls ls0, Forall2 unterminated ls ls0 ->
+     rd_run uni step use_tbq rd_init ls = rd_run uni step use_tbq rd_init ls0) /\
+  (forall uni use_tbq lines,
+     let ins := rd_inputs uni use_tbq [] lines in
+     let outs := map fst (fst (rd_run uni stream_step use_tbq rd_init lines)) in
+     map (map a_wrapper) outs = spec_wrapper (asm_events ins (map has_delivery outs)) /\
+     map fst (fst (rd_run uni queue_step use_tbq rd_init lines)) = outs) /\
+  (* decode() agrees with the readers *)
+  (forall uni step use_tbq, step = stream_step \/ step = queue_step ->
+     (forall parts fs sq ch ls,
+        Forall2 line_ais parts fs -> complete_message sq ch fs -> msg_single sq fs = false ->
+        (use_tbq = true -> Forall (tbq_accepts uni) fs) ->
+        Permutation parts (filter (line_touches (msg_slot sq ch)) ls) ->
+        exists outs st d,
+          rd_run uni step use_tbq rd_init ls = (outs, Ok st) /\ length outs = length ls /\
+          pick (map (line_touches (msg_slot sq ch)) ls) (map fst outs) = [d] /\
+          view d = msg_view fs /\ a_seq_id d = sq /\ a_channel d = ch /\
+          forall parts', Permutation parts parts' ->
+            exists nmea, assemble_messages false parts' = Ok nmea /\ view nmea = view d /\
+                         sentence_decode d = mmap snd (decode_api false parts')) /\
+     (forall p f pre post,
+        line_ais p f -> is_single f = true -> (use_tbq = true -> tbq_accepts uni f) ->
+        exists outs1 outs2 st touts d,
+          rd_run uni step use_tbq rd_init (pre ++ p :: post) = (outs1 ++ ([d], touts) :: outs2, Ok st) /\
+          length outs1 = length pre /\ length outs2 = length post /\
+          view d = view f /\ a_seq_id d = a_seq_id f /\ a_channel d = a_channel f /\
+          exists nmea, assemble_messages false [p] = Ok nmea /\ view nmea = view d /\
+                       sentence_decode d = mmap snd (decode_api false [p]))) /\
+  (* ... and for every complete message of every well-formed line schedule *)
+  (forall uni step use_tbq, step = stream_step \/ step = queue_step ->
+     forall ls sch m parts fs sq ch,
+       WF sch -> Forall2 (line_item uni use_tbq) ls sch ->
+       Forall2 line_ais parts fs -> complete_message sq ch fs ->
+       Permutation fs (map sf_sent (frags_of m (asm_frags sch))) ->
+       exists outs st d,
+         rd_run uni step use_tbq rd_init ls = (outs, Ok st) /\ length outs = length ls /\
+         pick (map (item_of_msg m) sch) (map fst outs) = [d] /\
+         view d = msg_view fs /\ a_seq_id d = sq /\ a_channel d = ch /\
+         forall parts', Permutation parts parts' ->
+           exists nmea, assemble_messages false parts' = Ok nmea /\ view nmea = view d /\
+                        sentence_decode d = mmap snd (decode_api false parts')).
+
+Theorem C07 : C07_statement.
+Proof.
+  exact (conj queue_step_eq (conj runs_agree (conj frontends_agree (conj assemble_perm
+        (conj rd_loops_equal (conj six_frontends_agree (conj terminators_irrelevant
+        (conj rd_wrappers_correct (conj decode_agrees decode_agrees_schedule))))))))).
+Qed.
+Print Assumptions C07.
+
+(* C07_partial (above) is the conjunction of the first four clauses of C07 *)
+Theorem C07_implies_partial : C07_statement ->
+  (forall st p t, queue_step st p t = if try_index_error p t then Ok (st, []) else stream_step st p t) /\
+  (forall ins st outs fin, asm_run stream_step st ins = (outs, Ok fin) -> asm_run queue_step st ins = (outs, Ok fin)) /\
+  (forall ls, Forall passes_filter ls -> Forall (fun l => ~ In 10 l) ls ->
+     let lines := map terminated ls in
+     iter_source lines = lines /\ bytestream_source lines = lines /\ binaryio_source (concat lines) = lines /\
+     iter_source ls = ls /\ bytestream_source ls = ls) /\
+  (forall l l', Permutation l l' -> NoDup (map a_frag_num l) ->
+     assembled_view (assemble_from_iterable l) = assembled_view (assemble_from_iterable l')).
+Proof.
+  exact (fun H => conj (proj1 H) (conj (proj1 (proj2 H)) (conj (proj1 (proj2 (proj2 H))) (proj1 (proj2 (proj2 (proj2 H))))))).
+Qed.
+Print Assumptions C07_implies_partial.
+
+(* ---------------------------------------------------------------- non-vacuity of part 2 *)
+
+(* !AIVDM,2,1,3,B,55P5TL01VIaAL@7WKO@mBplU@<PDhh000000001S;AJ::4A80?4i@E53,0*3E   and
+   !AIVDM,2,2,3,B,1@0000000000000,2*55                     -- a real two-fragment type 5 message (ship MT.MITCHELL) *)
+Definition ex_p1 : bytes :=
+  [33; 65; 73; 86; 68; 77; 44; 50; 44; 49; 44; 51; 44; 66; 44; 53; 53; 80; 53; 84; 76; 48; 49; 86; 73; 97; 65; 76; 64; 55; 87; 75;
+   79; 64; 109; 66; 112; 108; 85; 64; 60; 80; 68; 104; 104; 48; 48; 48; 48; 48; 48; 48; 48; 49; 83; 59; 65; 74; 58; 58; 52; 65; 56;
+   48; 63; 52; 105; 64; 69; 53; 51; 44; 48; 42; 51; 69].
+Definition ex_p2 : bytes :=
+  [33; 65; 73; 86; 68; 77; 44; 50; 44; 50; 44; 51; 44; 66; 44; 49; 64; 48; 48; 48; 48; 48; 48; 48; 48; 48; 48; 48; 48; 48; 44; 50;
+   42; 53; 53].
+(* !AIVDM,1,1,,A,15M67FC000G?ufbE`FepT@3n00Sa,0*5C  (a single-sentence type 1 message) *)
+Definition ex_single : bytes :=
+  [33; 65; 73; 86; 68; 77; 44; 49; 44; 49; 44; 44; 65; 44; 49; 53; 77; 54; 55; 70; 67; 48; 48; 48; 71; 63; 117; 102; 98; 69; 96; 70;
+   101; 112; 84; 64; 51; 110; 48; 48; 83; 97; 44; 48; 42; 53; 67].
+(* !AIVDM,2,1,4,A,55O0W7`00001L@gCWGA2uItLth@DqtL5@F22220j1h742t0Ht0000000,0*08  (first fragment of another slot, never completed) *)
+Definition ex_other : bytes :=
+  [33; 65; 73; 86; 68; 77; 44; 50; 44; 49; 44; 52; 44; 65; 44; 53; 53; 79; 48; 87; 55; 96; 48; 48; 48; 48; 49; 76; 64; 103; 67; 87;
+   71; 65; 50; 117; 73; 116; 76; 116; 104; 64; 68; 113; 116; 76; 53; 64; 70; 50; 50; 50; 50; 48; 106; 49; 104; 55; 52; 50; 116; 48;
+   72; 116; 48; 48; 48; 48; 48; 48; 48; 44; 48; 42; 48; 56].
+(* $PGHP,1,2020,12,31,23,59,58,239,0,0,0,1,2C*5B  (a Gatehouse wrapper) *)
+Definition ex_gh : bytes :=
+  [36; 80; 71; 72; 80; 44; 49; 44; 50; 48; 50; 48; 44; 49; 50; 44; 51; 49; 44; 50; 51; 44; 53; 57; 44; 53; 56; 44; 50; 51; 57; 44;
+   48; 44; 48; 44; 48; 44; 49; 44; 50; 67; 42; 53; 66].
+(* $GPGGA,123519,4807.038,N,01131.000,E,1,08,0.9,545.4,M,46.9,M,,*47  (a foreign NMEA sentence: skipped) *)
+Definition ex_junk : bytes :=
+  [36; 71; 80; 71; 71; 65; 44; 49; 50; 51; 53; 49; 57; 44; 52; 56; 48; 55; 46; 48; 51; 56; 44; 78; 44; 48; 49; 49; 51; 49; 46; 48;
+   48; 48; 44; 69; 44; 49; 44; 48; 56; 44; 48; 46; 57; 44; 53; 52; 53; 46; 52; 44; 77; 44; 52; 54; 46; 57; 44; 77; 44; 44; 42; 52;
+   55].
+
+Definition ex_uni : Z -> list Z -> option Z := fun _ _ => None.
+Definition ex_parse (l : bytes) : ais_sentence := match produce l with Ok (SAis a) => a | _ => ex_ais 0 0 0 false end.
+
+(* the second fragment arrives first; a single, a wrapper, a fragment of another slot and a foreign sentence in between *)
+Definition ex_lines : list bytes := [ex_p2; ex_single; ex_gh; ex_other; ex_junk; ex_p1].
+Definition ex_slot : asm_slot := msg_slot (Some 3) [66].
+Definition ex_delivered (step : asm_stepfn) : list ais_sentence :=
+  pick (map (line_touches ex_slot) ex_lines) (map fst (fst (rd_run ex_uni step true rd_init ex_lines))).
+
+(* the hypotheses of C07_decode_agrees (1) hold for this message and this line sequence ... *)
+Example C07_decode_nonvacuous_hyps :
+  Forall2 line_ais [ex_p1; ex_p2] [ex_parse ex_p1; ex_parse ex_p2] /\
+  complete_message (Some 3) [66] [ex_parse ex_p1; ex_parse ex_p2] /\
+  msg_single (Some 3) [ex_parse ex_p1; ex_parse ex_p2] = false /\
+  Forall (tbq_accepts ex_uni) [ex_parse ex_p1; ex_parse ex_p2] /\
+  Permutation [ex_p1; ex_p2] (filter (line_touches ex_slot) ex_lines) /\
+  line_ais ex_single (ex_parse ex_single) /\ is_single (ex_parse ex_single) = true /\ tbq_accepts ex_uni (ex_parse ex_single).
+Proof.
+  split; [repeat constructor; unfold line_ais; vm_compute; reflexivity|].
+  split.
+  { constructor.
+    - repeat constructor; vm_compute; reflexivity.
+    - repeat constructor; vm_compute; reflexivity.
+    - repeat constructor; vm_compute; reflexivity.
+    - vm_compute. apply Permutation_refl.
+    - discriminate. }
+  split; [vm_compute; reflexivity|]. split; [repeat constructor; vm_compute; exact I|].
+  split; [vm_compute; apply perm_swap|].
+  split; [unfold line_ais; vm_compute; reflexivity|]. split; [vm_compute; reflexivity|vm_compute; exact I].
+Qed.
+
+(* ... and, computed: both loops (with a tag block queue) deliver the single at line 2 and the assembled message at the
+   last line, nothing else; the assembled message carries the wrapper read in between, the single does not; its decode()
+   is what decode(p1, p2) and decode(p2, p1) return, a successfully decoded message *)
+Example C07_decode_nonvacuous :
+  map (fun o => length (fst o)) (fst (rd_run ex_uni stream_step true rd_init ex_lines)) = [0; 1; 0; 0; 0; 1]%nat /\
+  map (fun o => length (fst o)) (fst (rd_run ex_uni queue_step true rd_init ex_lines)) = [0; 1; 0; 0; 0; 1]%nat /\
+  map (fun d => match a_wrapper d with Some _ => true | None => false end) (ex_delivered stream_step) = [true] /\
+  map view (ex_delivered stream_step) = [msg_view [ex_parse ex_p2; ex_parse ex_p1]] /\
+  ex_delivered queue_step = ex_delivered stream_step /\
+  map sentence_decode (ex_delivered stream_step) = [mmap snd (decode_api false [ex_p1; ex_p2])] /\
+  mmap snd (decode_api false [ex_p2; ex_p1]) = mmap snd (decode_api false [ex_p1; ex_p2]) /\
+  is_ok (decode_api false [ex_p1; ex_p2]) = true.
+Proof. vm_compute. repeat split; reflexivity. Qed.
+
+(* the same lines with terminators (CR LF on two of them), as a byte stream cut into three receive chunks (the first cut
+   inside the first line, the second inside the third): the hypotheses of C07_six_frontends hold, and, computed, the socket
+   reader delivers what the in-memory iterator delivers on the bare lines *)
+Definition ex_tlines : list bytes :=
+  [ex_p2 ++ [13; 10]; ex_single ++ [10]; ex_gh ++ [10]; ex_other ++ [10]; ex_junk ++ [13; 10]; ex_p1 ++ [10]].
+Definition ex_chunks : list bytes :=
+  [firstn 5 (concat ex_tlines); firstn 100 (skipn 5 (concat ex_tlines)); skipn 105 (concat ex_tlines)].
+
+Example C07_frontends_nonvacuous :
+  lines_ok ex_tlines /\ Forall passes_filter ex_tlines /\ chunking ex_chunks (concat ex_tlines) /\
+  Forall2 unterminated ex_tlines ex_lines /\
+  fe_socket ex_uni true ex_chunks = fe_iter ex_uni true ex_lines /\
+  fe_queue ex_uni true ex_lines = fe_iter ex_uni true ex_lines.
+Proof.
+  split; [apply Proofs.SocketProofs.lines_okb_spec; vm_compute; reflexivity|].
+  split; [repeat constructor; vm_compute; reflexivity|].
+  split; [split; [vm_compute; reflexivity|apply Proofs.SocketProofs.chunks_okb_spec; vm_compute; reflexivity]|].
+  split; [repeat constructor; unfold unterminated; solve [left; reflexivity|right; reflexivity]|].
+  split; vm_compute; reflexivity.
+Qed.
+
+(* the line sequence above followed by the same two-fragment message once more (a verbatim retransmission in the same
+   slot, fragments in order this time), as a C03 schedule: message 0 = the first transmission, 1 = the single, 2 = the
+   other slot's fragment, 3 = the retransmission.  It is well-formed, every line is the item it stands for, message 3 is made
+   of the fragments of [p1; p2]: the hypotheses of C07_decode_agrees_schedule hold; and, computed, at the lines of message 3
+   exactly one sentence is delivered, with the view of the message, decoding as decode(p2, p1) does. *)
+Definition ex_gatehouse_of (l : bytes) : gatehouse :=
+  match produce l with Ok (SGatehouse g) => g | _ => mkGh (ex_common 0 false) (mkTs 0 0 0 0 0 0 0) [] [] [] 0 end.
+Definition ex_lines2 : list bytes := ex_lines ++ [ex_p1; ex_p2].
+Definition ex_sched2 : asm_schedule :=
+  [ IFrag (mkSF 0 (ex_parse ex_p2)); IFrag (mkSF 1 (ex_parse ex_single)); IWrapper (ex_gatehouse_of ex_gh);
+    IFrag (mkSF 2 (ex_parse ex_other)); ISkipped UnknownMessageException; IFrag (mkSF 0 (ex_parse ex_p1));
+    IFrag (mkSF 3 (ex_parse ex_p1)); IFrag (mkSF 3 (ex_parse ex_p2)) ].
+
+Example C07_schedule_nonvacuous :
+  WF ex_sched2 /\ Forall2 (line_item ex_uni true) ex_lines2 ex_sched2 /\
+  Permutation [ex_parse ex_p1; ex_parse ex_p2] (map sf_sent (frags_of 3 (asm_frags ex_sched2))) /\
+  map (fun o => length (fst o)) (fst (rd_run ex_uni queue_step true rd_init ex_lines2)) = [0; 1; 0; 0; 0; 1; 0; 1]%nat /\
+  map view (pick (map (item_of_msg 3) ex_sched2) (map fst (fst (rd_run ex_uni queue_step true rd_init ex_lines2)))) =
+    [msg_view [ex_parse ex_p1; ex_parse ex_p2]] /\
+  map sentence_decode (pick (map (item_of_msg 3) ex_sched2) (map fst (fst (rd_run ex_uni stream_step true rd_init ex_lines2)))) =
+    [mmap snd (decode_api false [ex_p2; ex_p1])].
+Proof.
+  split; [apply wf_check_sound; vm_compute; reflexivity|].
+  split; [repeat constructor; vm_compute; solve [reflexivity | exact I | intros _; exact I]|].
+  split; [vm_compute; apply Permutation_refl|].
+  vm_compute. repeat split; reflexivity.
 Qed.
